@@ -195,6 +195,8 @@ type ruleSet struct {
 	perG int
 	// mem: one in-memory target per round joins the rotation (sets that are not allZoo)
 	mem bool
+	// firstTouch: a concurrent round precedes the baseline (sets whose engines load quickly)
+	firstTouch bool
 }
 
 var ruleSets = []ruleSet{
@@ -395,9 +397,9 @@ func checkTargets(dir string, scale int) ([]*target, error) {
 		return base, err
 	}
 	ruleSets = append(ruleSets, ruleSet{name: "natives", files: []string{"natives.go"}, text: map[string]string{"natives.go": nativesOut.rules},
-		allZoo: true, only: "mt", freshBase: true, perG: 4})
+		allZoo: true, only: "mt", freshBase: true, perG: 4, firstTouch: true})
 	ruleSets = append(ruleSets, ruleSet{name: "natives-std", files: []string{"nativesstd.go"}, text: map[string]string{"nativesstd.go": nativesOut.rulesStd},
-		allZoo: true, only: "mt", perG: 3})
+		allZoo: true, only: "mt", perG: 3, firstTouch: true})
 	err = checkMemTargets(dir, fset, imp, nativesOut.nDo, nativesOut.nFlt)
 	return base, err
 }
@@ -610,6 +612,25 @@ func explore(enc0 *json.Encoder, targets []*target, sets []int, ns []int, seed i
 			rs := ruleSets[si]
 			// sequential baseline: a fresh engine, every file once, no RunnerState (the property's "lone sequential call")
 			base := map[string]runResult{}
+			// first touch: concurrent runs on a fresh engine BEFORE anything in this process has evaluated the set's rules
+			// sequentially (what is filled lazily on first use -- package-level tables included, which a new engine
+			// does not reset -- is filled by several goroutines at once); judged below, once the baseline exists
+			var first []pendingRun
+			firstSeed := seed*1000003 + int64(si)*131 + 7
+			if rs.firstTouch {
+				var sel []*target
+				for _, t := range targets {
+					if rs.only == "" || strings.HasPrefix(t.name, rs.only) {
+						sel = append(sel, t)
+					}
+				}
+				e0, err := loadEngine(rs, fset)
+				if err != nil {
+					enc.Encode(map[string]interface{}{"k": "error", "what": "load " + rs.name + ": " + err.Error()})
+					return
+				}
+				exploreRound(enc, e0, rs, sel, nil, nil, 8, "first-touch", firstSeed, 0, &first)
+			}
 			eA, err := loadEngine(rs, fset)
 			if err != nil {
 				enc.Encode(map[string]interface{}{"k": "error", "what": "load " + rs.name + ": " + err.Error()})
@@ -690,6 +711,22 @@ func explore(enc0 *json.Encoder, targets []*target, sets []int, ns []int, seed i
 				}
 				enc.Encode(m)
 			}
+			if rs.firstTouch {
+				// for the comparison with the lone runs of OTHER processes (mode lone): what survives an engine (package-level
+				// state) is the same for every engine of one process
+				for _, t := range targets {
+					enc.Encode(map[string]interface{}{"k": "base", "ruleset": rs.name, "file": t.name, "res": base[t.name]})
+				}
+			}
+			nm := 0
+			for _, pr := range first {
+				if !reflect.DeepEqual(pr.res, base[pr.file]) {
+					if nm < 3 {
+						enc.Encode(mismatch{"mismatch", rs.name, 8, "first-touch", pr.g, pr.file, pr.mode, firstSeed, base[pr.file], pr.res})
+					}
+					nm++
+				}
+			}
 			stA := ruleguard.NewRunnerState(eA)
 			for i := len(targets) - 1; i >= 0; i-- {
 				check("baseline", eA, stA, targets[i])
@@ -734,7 +771,7 @@ func explore(enc0 *json.Encoder, targets []*target, sets []int, ns []int, seed i
 						if rs.perG > 0 && n > 2 {
 							pg = rs.perG
 						}
-						exploreRound(enc, e, rs, roundTargets, pm, base, n, phase, rseed, pg)
+						exploreRound(enc, e, rs, roundTargets, pm, base, n, phase, rseed, pg, nil)
 					}
 				}
 				if time.Now().After(deadline) {
@@ -746,7 +783,17 @@ func explore(enc0 *json.Encoder, targets []*target, sets []int, ns []int, seed i
 	wg.Wait()
 }
 
-func exploreRound(enc *lockedEnc, e *ruleguard.Engine, rs ruleSet, targets []*target, pmFiles []*target, base map[string]runResult, n int, phase string, seed int64, perG int) {
+// pendingRun: a run of a first-touch round, judged once the baseline exists
+type pendingRun struct {
+	g    int
+	file string
+	mode string
+	res  runResult
+}
+
+// exploreRound: with base == nil the runs are not judged but appended to *pending (the first-touch round precedes the
+// baseline)
+func exploreRound(enc *lockedEnc, e *ruleguard.Engine, rs ruleSet, targets []*target, pmFiles []*target, base map[string]runResult, n int, phase string, seed int64, perG int, pending *[]pendingRun) {
 	k0, _ := ruleguard.VerifTypeCache(e)
 	p0 := ruleguard.VerifPkgCache(e)
 	pool := &sync.Pool{New: func() interface{} { return ruleguard.NewRunnerState(e) }}
@@ -793,13 +840,16 @@ func exploreRound(enc *lockedEnc, e *ruleguard.Engine, rs ruleSet, targets []*ta
 				if mode == "pool" {
 					pool.Put(st)
 				}
-				ok := reflect.DeepEqual(r, base[t.name])
+				ok := base == nil || reflect.DeepEqual(r, base[t.name])
 				mu.Lock()
 				runs++
 				reports += len(r.Reports)
 				stateModes[mode] = true
 				if r.Panic != "" {
 					panics++
+				}
+				if base == nil {
+					*pending = append(*pending, pendingRun{g, t.name, mode, r})
 				}
 				if !ok {
 					mism = append(mism, mismatch{"mismatch", rs.name, n, phase, g, t.name, mode, seed, base[t.name], r})
@@ -811,7 +861,7 @@ func exploreRound(enc *lockedEnc, e *ruleguard.Engine, rs ruleSet, targets []*ta
 	// the shared-context group: S more goroutines check the files of package c08/pm with ONE RunContext (State nil),
 	// every file owned by one goroutine, three passes each
 	sharedRuns := 0
-	if len(pmFiles) > 0 {
+	if len(pmFiles) > 0 && base != nil {
 		grp := newSharedGroup(pmFiles[0].t)
 		S := n
 		if S > len(pmFiles) {
@@ -1183,6 +1233,7 @@ func main() {
 	scale := flag.Int("scale", 6, "functions per target file")
 	perG := flag.Int("perg", 0, "files per goroutine (0 = all)")
 	fresh := flag.Bool("fresh", false, "also compute a lone baseline on a fresh engine per (rule set, file)")
+	order := flag.String("order", "fwd", "lone: fwd | rev")
 	nscripts := flag.Int("scripts", 12, "findtype: sequential scripts")
 	nburst := flag.Int("bursts", 6, "findtype: concurrent bursts")
 	flag.Parse()
@@ -1231,6 +1282,39 @@ func main() {
 			"helpers": nativesOut.helpers, "do_rules": nativesOut.nDo, "filter_rules": nativesOut.nFlt}
 		enc.Encode(cov)
 		explore(enc, all, sets, parseInts(*nsFlag), *seed, time.Duration(*budget*float64(time.Second)), *perG, *fresh)
+	case "lone":
+		// lone Runs in a process of their own: every file of the quickly loading rule sets once, on a fresh engine where the
+		// set allows it, in the given order. Two such processes (forward / reverse) and the exploring process must agree.
+		all := append(append(append([]*target(nil), targets...), zooTargets...), memTargets...)
+		if *order == "rev" {
+			for i, j := 0, len(all)-1; i < j; i, j = i+1, j-1 {
+				all[i], all[j] = all[j], all[i]
+			}
+		}
+		fset := all[0].t.Fset
+		for _, rs := range ruleSets {
+			if !rs.firstTouch {
+				continue
+			}
+			shared, err := loadEngine(rs, fset)
+			if err != nil {
+				enc.Encode(map[string]interface{}{"k": "error", "what": "load " + rs.name + ": " + err.Error()})
+				continue
+			}
+			for _, t := range all {
+				if rs.only != "" && !strings.HasPrefix(t.name, rs.only) {
+					continue
+				}
+				e := shared
+				if rs.freshBase {
+					if e, err = loadEngine(rs, fset); err != nil {
+						enc.Encode(map[string]interface{}{"k": "error", "what": "load " + rs.name + ": " + err.Error()})
+						break
+					}
+				}
+				enc.Encode(map[string]interface{}{"k": "lone", "ruleset": rs.name, "file": t.name, "order": *order, "res": runOnce(e, t.t, nil, nil)})
+			}
+		}
 	case "natives-src":
 		fmt.Println(nativesOut.rules)
 		fmt.Println("// ---------------- natives-std")
